@@ -117,6 +117,12 @@ func check(c *facet.Ctx, in Call, restype bool) error {
 	if err != nil && errors.As(err, &pe) {
 		return facet.Failf("panic-error", "%s returned function.PanicError: %v", argsString(in), pe.Value).With("fn", in.Fn)
 	}
+	// The argument values are used again after the call: simple functions of
+	// each of them (keys / values / length) must still return what the
+	// reference says about the argument as it was specified.
+	if f := followUps(c, in, args); f != nil {
+		return f
+	}
 	switch o.kind {
 	case oOOD:
 		c.Label("out_of_domain")
@@ -221,6 +227,40 @@ func check(c *facet.Ctx, in Call, restype bool) error {
 		}
 	} else if nonEmpty && len(o.flags) > 0 {
 		c.NonTrivial()
+	}
+	return nil
+}
+
+func followUps(c *facet.Ctx, in Call, used []cty.Value) *facet.Failure {
+	for i, a := range in.Args {
+		if a.St != spec.Known {
+			continue
+		}
+		var probes []string
+		switch a.T.K {
+		case spec.KObject, spec.KMap:
+			probes = []string{"keys", "values", "length"}
+		case spec.KList, spec.KTuple, spec.KSet:
+			probes = []string{"length"}
+		}
+		for _, p := range probes {
+			o := refs[p]([]spec.V{a})
+			if o.kind != oValue || o.unordered || o.numTol {
+				continue
+			}
+			got, err, panicked := safeCall(funcs[p], []cty.Value{used[i]})
+			what := fmt.Sprintf("after %s, %s of argument %d", argsString(in), p, i)
+			if panicked != "" {
+				return facet.Failf("followup-panic", "%s panicked: %s", what, panicked).With("fn", in.Fn)
+			}
+			if err != nil {
+				return facet.Failf("followup-error", "%s failed: %v (reference %s)", what, err, wantString(o.want)).With("fn", in.Fn)
+			}
+			if why := (matcher{}).match(got, o.want, ""); why != "" {
+				return facet.Failf("followup-value", "%s = %#v, reference %s: %s", what, got, wantString(o.want), why).With("fn", in.Fn)
+			}
+			c.Label("followup:" + p)
+		}
 	}
 	return nil
 }
